@@ -1,7 +1,9 @@
 """C18 pipeline: schemas generated from Go types accept every JSON encoding of the type."""
+import concurrent.futures as cf
 import json
 import os
 import random
+import shutil
 
 from .common import *
 from .core import VERIF, Ctx, Infra, casehash, log
@@ -43,11 +45,13 @@ def c18(ctx: Ctx):
         "reflection is compared with GoTypes!Defs by TLC) and projector (schema JSON -> abstract schema; numbers -> order codes "
         "of the boundary table written by TLC, compared exactly with math/big)",
         "values: a covering list per type (every leaf runs through its boundary values, every pointer/slice/map through nil/empty "
-        "and non-empty; at most 6 per type), recursive values unfolded to depth 2; 64-bit int",
-        "reflect cannot create named or method-carrying types: recursion and component names come from the 14 declared types only; "
+        "and non-empty; at most 6 per type), recursive values unfolded to depth 2 - the mutually recursive families to depth 7 with at most 8 values, so that a cycle of length 3 is passed twice; 64-bit int",
+        "reflect cannot create named or method-carrying types: recursion and component names come from the 26 declared types only; "
         "json:\",string\", yaml tags, arrays, interfaces, non-string map keys, json.RawMessage are outside the universe",
         "the type-name generator option sets (tng*) use one fixed function (prefix \"T_\", checked by TLC against what the harness "
         "installed) and are enumerated over the types that reach a declared struct type",
+        "what the generator stores in the component map can depend on map iteration order: the mutually recursive types are generated "
+        "Reps times (20 quick / 100 thorough) with fresh generators, runs with identical observations share one judged log line",
         "component export (CreateComponentSchemas) is enumerated over types whose component-forming structs are declared ones "
         "(anonymous structs all get the component name \"\": listed finding with its own witness)",
     ]
@@ -57,7 +61,8 @@ def c18(ctx: Ctx):
         v = ctx.replay["violation"]
         ctx.tlc("Gen_C18", "Gen_C18_points.cfg", label="F point table only", workers=1)
         ctx.unquote(ctx.spec("points.ndjson"), points)
-        write_ndjson(cases, [dict(T=v["T"], opt=v["opt"], vals=v["gvs"])])
+        # a verdict that may depend on map iteration order inside the generator is replayed repeatedly
+        write_ndjson(cases, [dict(T=v["T"], opt=v["opt"], vals=v["gvs"], reps=50)])
     else:
         # D: the implementation-shaped model of the generator against the contract
         ctx.tlc("MC_C18", "MC_C18_pinned.cfg", expect_violation=True, label="D pinned-model counterexample")
@@ -66,10 +71,24 @@ def c18(ctx: Ctx):
         # gets the deep treatment (full wrapper set at two levels) next to the fixed ones.
         rot = ROTATE[ctx.seed % len(ROTATE)]
         cfg = open(ctx.spec("Gen_C18_%s.cfg" % tier)).read().replace("Deep = {", 'Deep = {"%s", ' % rot)
-        open(ctx.spec("Gen_C18_run.cfg"), "w").write(cfg)
         ctx.extra["generator_constants"] = cfg.split("CONSTANTS")[1].split("INVARIANTS")[0].split()
-        ctx.tlc("Gen_C18", "Gen_C18_run.cfg", label="F generate types x options (BFS, deep base %s)" % rot)
+        open(ctx.spec("Gen_C18_run.cfg"), "w").write(cfg.replace('Which = "all"', 'Which = "rest"'))
+        open(ctx.spec("Gen_C18_run_deep.cfg"), "w").write(cfg.replace('Which = "all"', 'Which = "deep"'))
+        # two generator runs side by side: all bases with many workers (writes the short case lines) and the mutually
+        # recursive families with one worker (writes the long lines: concurrent CSVWrite is atomic up to 8 KB only)
+        deepdir = os.path.join(ctx.scratch, "spec-deep")
+        shutil.copytree(ctx.specdir, deepdir)
+        with cf.ThreadPoolExecutor(max_workers=2) as ex:
+            f1 = ex.submit(ctx.tlc, "Gen_C18", "Gen_C18_run.cfg", label="F generate types x options (BFS, deep base %s)" % rot)
+            f2 = ex.submit(ctx.tlc, "Gen_C18", "Gen_C18_run_deep.cfg", workers=1, cwd=deepdir,
+                           label="F generate mutually recursive families x options (BFS)")
+            f1.result()
+            f2.result()
         n = ctx.unquote(ctx.spec("cases.ndjson"), cases)
+        deepcases = os.path.join(ctx.scratch, "cases_deep.ndjson")
+        n += ctx.unquote(os.path.join(deepdir, "cases.ndjson"), deepcases)
+        with open(cases, "a") as f:
+            f.writelines(open(deepcases))
         ctx.unquote(ctx.spec("points.ndjson"), points)
         ctx.exhaustive = True
         if tier == "thorough":
@@ -99,21 +118,23 @@ def c18(ctx: Ctx):
     env = {"VERIF_POINTS": points, "VERIF_C18_BREAKER": os.path.join(ctx.scratch, "breaker")}
     if ctx.replay:
         env["VERIF_C18_TIMEOUT_MS"] = "5000"   # a replayed non-termination must not run for the full period
-    ctx.drive(cases, logp, env=env)
+        env["VERIF_C18_MAXSTACK_KB"] = "65536"  # ... nor allocate for a minute: it dies early with a stack overflow (crash)
+    ctx.drive(cases, logp, env=env, shards=4 if tier == "thorough" and not ctx.replay else 1)
     iso = [] if ctx.replay else _witnesses(True)
     if iso:
         icases, ilog = os.path.join(ctx.scratch, "cases_iso.ndjson"), os.path.join(ctx.scratch, "log_iso.ndjson")
         write_ndjson(icases, iso)
-        ctx.drive(icases, ilog, env={"VERIF_POINTS": points, "VERIF_C18_TIMEOUT_MS": "3000"})
+        ctx.drive(icases, ilog, env={"VERIF_POINTS": points, "VERIF_C18_TIMEOUT_MS": "3000", "VERIF_C18_MAXSTACK_KB": "2048"})
         with open(logp, "a") as f:
             f.writelines(open(ilog))
     rng = random.Random(ctx.seed)
-    nlines = 0
+    nlines = runs = 0
     for l in open(logp):
         o = json.loads(l)
         nlines += 1
         nv = len(o.get("vals", []))
-        ctx.evaluations += 2 * nv
+        runs += o.get("nrep", 1)
+        ctx.evaluations += 2 * nv * o.get("nrep", 1)
         t = o["T"]
         # non-trivial: the type has structure (a pointer, container, struct or declared type) and at least two values
         if t.get("k") in ("ptr", "slice", "map", "struct", "named") and nv >= 2:
@@ -124,6 +145,7 @@ def c18(ctx: Ctx):
                 "(recursive) struct type wrapped up to W times by pointer/slice/map/16 struct forms (quick: +1 seed-chosen deep base; thorough: + deeper types sampled with -simulate) - each with the covering value list "
                 "GoVals(T); evaluations counts (type, options, value, input form) validations against the real generated schema; "
                 "non-trivial = distinct (type, options) whose type is composite and has at least two values that do not encode as null")
+    ctx.extra["generator_runs"] = runs     # generations with fresh generators (identical observations share a log line)
     # one TLC process per core in quick (a single round), three rounds in thorough
     per = nlines // 16 + 1 if nlines < 16000 else nlines // 48 + 1
     ctx.validate("Trace_C18", "Trace_C18.cfg", logp, chunk_lines=per)
